@@ -68,6 +68,8 @@ def judge(h, parsed, rc, timed_out, out):
     cov = {"satisfied": 0, "unsat_expected": 0, "bad": []}
     if timed_out:
         return "inconclusive", ["timeout after %ss" % h["timeout_s"]], failed, cov
+    if re.search(r"Out of memory|CBMC failed with status|std::bad_alloc", out):
+        return "inconclusive", ["CBMC ran out of memory or crashed (never a pass)"], failed, cov
     if parsed["verification"] is None:
         tail = out[-600:].replace("\n", " | ")
         return "inconclusive", ["no verdict from Kani/CBMC (rc=%s): %s" % (rc, tail)], failed, cov
@@ -126,6 +128,8 @@ def judge(h, parsed, rc, timed_out, out):
         return "pass", reasons, [], cov
 
     # ordinary proof harness
+    if any("copy_stub: count beyond the modelled bound" in c["desc"] for c in failed):
+        return "inconclusive", ["a copy exceeded the bound of the copy stub (environment model too small)"], failed, cov
     if failed:
         real = [c for c in failed if c not in unsupported]
         if not real:
@@ -135,7 +139,13 @@ def judge(h, parsed, rc, timed_out, out):
             return "inconclusive", ["failed check inside the tool's own model (artifact suspected): %s in %s" % (real[0]["desc"], real[0]["func"])], real, cov
         return "violation", ["failed check: %s" % real[0]["desc"]], [c for c in real if c not in tool], cov
     if undet:
-        return "inconclusive", ["undetermined checks: %s" % undet[0]["desc"]], failed, cov
+        # CBMC reports some properties as UNKNOWN in multi-property runs although they are SUCCESS when checked alone
+        # (measured, DESIGN.md 2.8). They are never counted as discharged; a harness-level oracle that stays
+        # undetermined makes the run inconclusive.
+        own = [c for c in undet if c["where"].startswith("src/") or "copy_stub" in c["desc"]]
+        if own:
+            return "inconclusive", ["undetermined harness-level check: %s" % own[0]["desc"]], failed, cov
+        reasons.append("%d checks left UNDETERMINED by CBMC (not counted as discharged), e.g. %s" % (len(undet), undet[0]["func"]))
     if parsed["verification"] != "SUCCESSFUL":
         # covers unsatisfied make Kani print FAILED? (no: covers do not affect). Anything else is inconclusive.
         return "inconclusive", ["Kani verdict %s without a failed check" % parsed["verification"]], failed, cov
@@ -202,6 +212,7 @@ def run_harness(h, target_dir, log_path=None, extra=()):
         "covers_unsat_as_required": cov["unsat_expected"],
         "covers_bad": cov["bad"],
         "n_checks": len([c for c in parsed["checks"] if not is_cover(c)]),
+        "n_undetermined": len([c for c in parsed["checks"] if not is_cover(c) and c["status"] == "UNDETERMINED"]),
         "n_reachable_checks": len([c for c in parsed["checks"] if not is_cover(c) and c["status"] != "UNREACHABLE"]),
         "n_repo_checks": len([c for c in parsed["checks"] if "repo/src" in c["where"]]),
         "repo_functions": sorted({c["func"] for c in parsed["checks"] if "repo/src" in c["where"] and c["func"]}),
